@@ -368,6 +368,8 @@ def gen_element_call(src, world, cname, attr, inplace, bad_rate):
                 args = [item()]
             if src.chance(1, 3):
                 k["_index"] = gen_index(src)
+                if T[0] == "keyedlist" and src.chance(1, 3):
+                    k["_index"] = ["$key", attr, src.choice(4)]  # a keyed list may be addressed by key - also as the position
                 if src.chance(1, 2):
                     k["_insert"] = src.chance(3, 4)
         elif fam == "map":
